@@ -328,6 +328,8 @@ def vary(mod, cases, tier):
             if kind in getattr(mod, "NO_DEGEN", set()):
                 continue
             d = DEGEN[w - len(AMPS) - 2]
+            if d in getattr(mod, "NO_DEGEN_TYPES", ()):
+                continue                                  # a module opts out of ONE degenerate type (documented in the module)
             n = np.arange(x.size)
             if d == "imag":
                 if not np.iscomplexobj(x):
@@ -347,6 +349,8 @@ def vary(mod, cases, tier):
                     continue
                 xx = x.copy()
                 xx[1::2] = 0                              # zero-inserted (upsampled) record: exact zeros in intermediate quantities
+                if np.count_nonzero(xx) < 3:
+                    continue                              # never an (almost) all-zero record
                 q["x"] = xx
             elif d == "dc":
                 q["x"] = x + 4 * np.max(np.abs(x))        # dominant tone exactly at DC
